@@ -561,8 +561,44 @@ def r12_4(ctx, prog, crate):
                   "run_action does not build the tree from BENCH_ENTRIES + generic benches and attach GROUP_ENTRIES", ra.where(0))
 
 
+def r12_5(ctx, prog, crate):
+    """Empty `args` lists register nothing: the macro still emits an entry for `args = []` (the list is only known at run
+    time), so the clause rests on the tree pass that drops argument leaves without arguments and parents without
+    children - it must run unconditionally before every consumer of the tree."""
+    from .C13 import retain_dominates_consumers
+    retain_dominates_consumers(ctx, "R12.5", prog, crate, why="pruned of empty argument lists")
+    cl = [x for x in prog.lib_bodies(crate) if x.kind == "Closure" and x.path.startswith("entry::tree::EntryTree::retain")
+          and any(c.callee == "std::vec::Vec::retain" for c in x.live_calls())]
+    if not ctx.anchor("R12.5", "the retain_mut predicate of EntryTree::retain (calls Vec::retain on a leaf's args)", len(cl), 1):
+        return
+    from lib.symexpr import Sym
+    for x in cl:
+        ctx.saw(x)
+        S = Sym(x, site_args=True)
+        ar = [c for c in x.live_calls() if c.callee == "std::vec::Vec::retain"]
+        ok = len(ar) == 1
+        if ok:
+            vec = S.op(ar[0].args[0])
+            # after the args pass the leaf's verdict is `!args.is_empty()` of the same vector, on the direct continuation
+            nxt = ar[0].target
+            ie = x.call_at(nxt) if nxt is not None else None
+            ok = ie is not None and ie.callee == "std::vec::Vec::is_empty" and S.op(ie.args[0]) == vec
+            if ok:
+                blk = x.blocks[ie.target]
+                rets = [s for s in blk["stmts"] if s["k"] == "assign" and s["p"]["l"] == 0 and not s["p"]["proj"]]
+                ok = len(rets) == 1 and rets[0]["rv"]["k"] == "unop" and rets[0]["rv"]["op"] == "Not" and \
+                    rets[0]["rv"]["o"].get("p", {}).get("l") == ie.dest["l"]
+        ctx.check(ok, "R12.5", ["EntryTree::retain", "args-leaf-kept-iff-args-remain"],
+                  "an argument leaf is not kept exactly when `!args.is_empty()` after its args were filtered (an empty `args` list would stay registered)", x.where(0))
+        # the args of the pass are the leaf's own args (payload of the `args: Some(..)` pattern of the predicate's parameter)
+        if ar:
+            ok2 = "Some" in repr(S.op(ar[0].args[0])) and "arg" in repr(S.op(ar[0].args[0]))
+            ctx.check(ok2, "R12.5", ["EntryTree::retain", "args-of-this-leaf"], "Vec::retain is not applied to the leaf's own `args: Some(..)`: %s" % (S.op(ar[0].args[0]),), ar[0].line())
+
+
 def run(ctx, prog, crate):
     r12_4(ctx, prog, crate)
+    r12_5(ctx, prog, crate)
 
 
 def run_extra(ctx):
